@@ -97,9 +97,14 @@ func c18(env *core.Env) {
 				items = []string{}
 			}
 			doc, _ := json.Marshal(map[string]any{"name": "foo", "tags": items, "repositories": items})
-			if l := c.Int("game.link", 7); l > 0 {
+			if l := c.Int("game.link", 10); l > 0 {
 				path := req.URL.Path
 				h.Set("Link", []string{
+					// relative references with a path of their own: resolved against the
+					// page just fetched they give a new URL every time
+					"<more/>; rel=\"next\"",
+					"<x/y>; rel=\"next\"",
+					"<" + path + "/again>; rel=\"next\"",
 					"<" + path + "?last=a&n=1>; rel=\"next\"",
 					"<" + path + "?last=b&n=1>; rel=\"next\"",
 					"<" + path + "?n=1&last=a>; rel=\"next\"",
